@@ -2,6 +2,7 @@ import Exetera.Lemmas.CsvDriverThm
 import Exetera.Lemmas.CsvWindow
 import Exetera.Lemmas.CsvLoopThm
 import Exetera.Lemmas.CsvReadCsv
+import Exetera.Lemmas.CsvReadCsvG
 /-!
 # C05 — CSV import reproduces the file's records exactly, independent of chunking
 
@@ -15,10 +16,12 @@ An `.ok` result means: every subscript of the compiled kernel was in bounds, no 
 within its fuel `len(source) + 1` (termination), and the driver ended within the given number of kernel calls.
 
 Proved for all inputs: `fsm_whole_eq_spec`, `fsm_split_at_record_end`, `fsm_window_eq_spec`,
-`import_single_window_eq_spec`, `window_chunking_unobservable_partial`, `chunk_size_unobservable_partial`, `read_csv_eq_spec_partial`,
-`include_exclude_selects`. Not proved (kept visible below as comments): the full `window_chunking_unobservable` (every starting budget ≥ 1) and
-`regrowth_unobservable` — the runs in which a staging buffer fills and is enlarged; they are supported by the exhaustive
-small-scope and random correspondence only.
+`import_single_window_eq_spec`, `include_exclude_selects`, and — including every run in which a staging buffer fills and
+the driver re-enters the window with doubled buffers (any number of index-buffer and value-buffer regrowths) —
+`fsm_any_buffers_eq_spec` (one kernel call with arbitrary buffers: no flag / indices full / values full, and what it reports),
+`window_chunking_unobservable`, `regrowth_unobservable`, `chunk_size_unobservable`, `read_csv_eq_spec`, each with an explicit
+bound on the number of kernel calls (`records + 2 + regrowthBound`, `regrowth_count_logarithmic`).
+The earlier `…_partial` forms (two explicit no-regrowth hypotheses, call bound `records + 2`) are kept.
 -/
 namespace Exetera.Props.C05
 open Exetera Exetera.Csv Exetera.Csv.Spec
@@ -352,22 +355,242 @@ example : (match readCsv (render (exHeader :: exRows)) ["a", "b"] [("a", .indexe
 example : values exRows = [[[120], [112, 44, 113]], [[121], [114, 34, 115]], [[], [116, 10, 117]]] := by decide
 example : fieldsToUse ["a", "b", "c"] (some ["c", "a"]) (some ["a"]) = ["c"] := by decide
 
-/-! ### not proved
+/-! ### the full statements: any number of buffer regrowths -/
 
-`window_chunking_unobservable` (full statement): the conclusion of `window_chunking_unobservable_partial` for every `crs` with
-  `Supported.reg` alone and every `offs` with budgets ≥ 1, i.e. without `min` and `fit`:
-    ∃ fuel calls, readFile file crs ncols offs im (fresh indexed fields) fuel
-        = .ok ⟨rows.length, im.map (fun c => fieldOf (column (values rows) c)), calls⟩
-`regrowth_unobservable` (full statement): the same, stressing any number of index-buffer and value-buffer regrowths (the
-  budget of the full column doubles until the cell fits; the call is re-entered at the last record end inside the same window).
-What is proved of them: everything that does not involve a full buffer — the kernel on every window of the regime
-(`fsm_window_eq_spec`, from any record boundary: `fsm_split_at_record_end`) and the whole driver loop over any number of
-windows (`window_chunking_unobservable_partial`). What is missing: the kernel's early return when a buffer fills (flags,
-`val_full_col_idx`, resume position = last record end), the driver's regrowth branch and re-entry with `start_index > 0`
-(the fixes D26 / NC05a live exactly there), and the termination argument for repeated doubling. Support for the unproved
-part: the correspondence run (exhaustive small scope over every supported `crs` with budgets 1 / 2 / ample, all-empty-cell
-files that fill the index buffer, random files), model = code = reference parser on every case.
--/
+/-- `column_offsets` as the driver needs them: `ncols + 1` entries starting at 0, every column's value budget
+    `column_offsets[c+1] - column_offsets[c]` at least one byte (`read_csv_with_schema_dict` guarantees it: fix NC05b) -/
+structure Budgets (ncols : Nat) (offs : List Nat) : Prop where
+  len : offs.length = ncols + 1
+  zero : offAt offs 0 = 0
+  pos : ∀ c, c < ncols → offAt offs c < offAt offs (c + 1)
 
+/-- **fsm_any_buffers_eq_spec** (what one call of `fast_csv_reader` does when a staging buffer may fill). The window holds,
+    from the record boundary `|pre|` on, (the header line,) the complete records `rowsW` and then what `nxt` says: nothing, or
+    the first `m` bytes of one more record. Index buffer of `maxrow ≥ 1` rows, value budgets ≥ 1, stale contents allowed
+    (`Shape`, first index entry 0). The call returns `.ok` (no subscript out of bounds, loop terminates), reports some number
+    `a ≤ |rowsW|` of records — *exactly the first `a` records*, column by column, through `import_part` — resumes at the end
+    of record `a`, and one of three things holds: no flag and `a = |rowsW|`; `is_column_inds_full` only and `a = maxrow`;
+    `is_column_vals_full` only, `val_full_col_idx = j < ncols`, and the budget of column `j` is at most the bytes of
+    column `j` in the first `a + 1` records (so doubling it is progress). -/
+theorem fsm_any_buffers_eq_spec {ncols maxrow : Nat} {offs : List Nat} {inds : List (List Nat)} {vals : List Nat}
+    (hh : Bool) (hrow : List Cell) (rowsW : List (List Cell)) (nxt : Option (List Cell × Nat)) (pre : List Nat)
+    (hnxt : ∀ r m, nxt = some (r, m) → m < (renderCells r).length ∧ r.length = ncols ∧ ∀ c ∈ r, c.WF)
+    (hhdr : hh = true → hrow.length = ncols ∧ ∀ c ∈ hrow, c.WF) (htab : Table ncols rowsW)
+    (hbuf : Budgets ncols offs) (hsh : Shape ncols maxrow offs inds vals) (hmax : 0 < maxrow)
+    (hz : ∀ c, c < ncols → ∃ r, inds[c]? = some r ∧ r[0]? = some 0) :
+    ∃ o a, fastCsvReader (pre ++ (((if hh then renderCells hrow else []) ++ render rowsW) ++ tailText nxt)) pre.length inds vals
+          offs hh = .ok o ∧
+      a ≤ rowsW.length ∧ o.written = (a : Int) ∧
+      o.nextPos = (pre ++ ((if hh then renderCells hrow else []) ++ render (rowsW.take a))).length ∧
+      (∀ c, c < ncols →
+        Imp.importPart { kind := .indexed } o.inds o.vals offs c a = .ok (fieldOf (column (values (rowsW.take a)) c))) ∧
+      ((o.indsFull = false ∧ o.valsFull = false ∧ o.vfc = none ∧ a = rowsW.length)
+       ∨ (o.indsFull = true ∧ o.valsFull = false ∧ o.vfc = none ∧ a = maxrow)
+       ∨ (o.indsFull = false ∧ o.valsFull = true ∧ ∃ j, j < ncols ∧ o.vfc = some j ∧
+            offAt offs (j + 1) - offAt offs j ≤
+              (column (values ((rowsW ++ tailRows nxt).take (a + 1))) j).flatten.length)) := by
+  obtain ⟨hnc, htab'⟩ := htab
+  obtain ⟨o, a, hker, hale, hres, hout⟩ :=
+    kernel_general (offs := offs) hh hrow rowsW nxt pre rfl hnxt hhdr htab' hnc hsh hmax hz hbuf.pos
+  refine ⟨o, a, hker, hale, hres.written, hres.nextPos, ?_, ?_⟩
+  · intro c hc
+    have htabA : ∀ x ∈ rowsW.take a, x.length = ncols ∧ ∀ c ∈ x, c.WF := fun x hx => htab' x (List.mem_of_mem_take hx)
+    have hE : stageRows (fun _ => []) (rowsW.take a) c = column (values (rowsW.take a)) c := by rw [stageRows_col]; rfl
+    have hlen : (column (values (rowsW.take a)) c).length = a := by
+      rw [← hE, stageRows_length _ htabA c hc, List.length_take]; omega
+    have h := importPart_indexed (hres.cols c hc) (offs_get hbuf.len (by omega))
+    rw [hE, hlen] at h
+    exact h
+  · rcases hout with h | h | ⟨h1, h2, j, hj, h3, h4⟩
+    · exact Or.inl h
+    · exact Or.inr (Or.inl h)
+    · exact Or.inr (Or.inr ⟨h1, h2, j, hj, h3, by omega⟩)
+
+/-- The supported regime of the property — and nothing else — for a file `file` that is the text of the header line `hrow`
+    and the table `rows` (RFC-4180 cells; with or without the final line break), read with `chunk_row_size = crs`:
+    every line (the header line, every record, with its line break) fits the byte window `2·crs·ncols`. -/
+structure Regime (file : List Nat) (crs ncols : Nat) (hrow : List Cell) (rows : List (List Cell)) : Prop where
+  isFile : file = render (hrow :: rows) ∨ (file ++ [Csv.NL] = render (hrow :: rows) ∧ file.getLast? ≠ some Csv.NL)
+  nonempty : file ≠ []
+  hdr : hrow.length = ncols ∧ ∀ c ∈ hrow, c.WF
+  tab : Table ncols rows
+  crsPos : 0 < crs
+  reg : ∀ l ∈ hrow :: rows, (renderCells l).length ≤ crs * Gen.Csv.CHUNK_ROW_FACTOR * ncols
+
+/-- **regrowth_count_logarithmic.** `need b t` — the number of times a buffer of size `b` is enlarged (multiplied by the
+    driver's `larger_factor`, regenerated from the source and checked to be ≥ 2) before it exceeds `t` — satisfies
+    `b · 2^(need b t − 1) ≤ t`: at most `log₂ (t / b) + 1` regrowths. `regrowthBound rows ncols offs maxrow` is
+    `need maxrow |rows|` (index buffer) plus, for every column `c`, `need (budget c) (bytes of column c)`. -/
+theorem regrowth_count_logarithmic (b t : Nat) (h : 0 < need b t) : b * 2 ^ (need b t - 1) ≤ t :=
+  need_pow t (t + 1 - b) b (Nat.le_refl _) h
+
+/-- **window_chunking_unobservable** (full statement). For *every* `chunk_row_size` in the supported regime, *every* starting
+    value budgets ≥ 1 and whatever regrowth they force — the index buffer filling (records of empty cells), a value budget
+    filling (cells longer than the budget), any number of times, in any window, also in the window that holds the header —
+    `read_file_using_fast_csv_reader` returns `.ok` within `records + 2 + regrowthBound` kernel calls, and the destination
+    fields are exactly the columns of the table: the same result as reading the file in one window with ample buffers
+    (`import_single_window_eq_spec`). -/
+theorem window_chunking_unobservable {file : List Nat} {crs ncols : Nat} {offs : List Nat} {hrow : List Cell}
+    {rows : List (List Cell)} (h : Regime file crs ncols hrow rows) (hb : Budgets ncols offs) (im : List Nat)
+    (him : ∀ c ∈ im, c < ncols) (fuel : Nat)
+    (hfuel : rows.length + 2 + regrowthBound rows ncols offs (crs * Gen.Csv.CHUNK_ROW_FACTOR) ≤ fuel) :
+    ∃ calls, readFile file crs ncols offs im (im.map (fun _ => ({ kind := .indexed } : Imp))) fuel =
+      .ok ⟨rows.length, im.map (fun c => fieldOf (column (values rows) c)), calls⟩ :=
+  readFile_regrowth
+    { isFile := h.isFile, hdr := h.hdr, tab := h.tab.2, nc := h.tab.1, crsPos := h.crsPos, reg := h.reg, imOk := him }
+    h.nonempty hb.len hb.zero hb.pos fuel hfuel
+
+/-- **regrowth_unobservable.** Two imports of the same file with the same `chunk_row_size` and different starting budgets
+    (each ≥ 1 byte per column; e.g. one that never fills and one that fills in every window) produce the same row count and
+    the same fields: how the internal buffers had to grow is not observable. -/
+theorem regrowth_unobservable {file : List Nat} {crs ncols : Nat} {offs₁ offs₂ : List Nat} {hrow : List Cell}
+    {rows : List (List Cell)} (h : Regime file crs ncols hrow rows) (hb₁ : Budgets ncols offs₁) (hb₂ : Budgets ncols offs₂)
+    (im : List Nat) (him : ∀ c ∈ im, c < ncols) (fuel : Nat)
+    (hfuel₁ : rows.length + 2 + regrowthBound rows ncols offs₁ (crs * Gen.Csv.CHUNK_ROW_FACTOR) ≤ fuel)
+    (hfuel₂ : rows.length + 2 + regrowthBound rows ncols offs₂ (crs * Gen.Csv.CHUNK_ROW_FACTOR) ≤ fuel) :
+    ∃ o₁ o₂, readFile file crs ncols offs₁ im (im.map (fun _ => ({ kind := .indexed } : Imp))) fuel = .ok o₁ ∧
+      readFile file crs ncols offs₂ im (im.map (fun _ => ({ kind := .indexed } : Imp))) fuel = .ok o₂ ∧
+      o₁.rows = o₂.rows ∧ o₁.imps = o₂.imps := by
+  obtain ⟨c1, e1⟩ := window_chunking_unobservable h hb₁ im him fuel hfuel₁
+  obtain ⟨c2, e2⟩ := window_chunking_unobservable h hb₂ im him fuel hfuel₂
+  exact ⟨_, _, e1, e2, rfl, rfl⟩
+
+/-- **chunk_size_unobservable** (full statement). Two imports of the same file with different `chunk_row_size` (both in the
+    supported regime) and any starting budgets ≥ 1 produce the same row count and the same fields, whatever regrowth
+    either of them goes through. -/
+theorem chunk_size_unobservable {file : List Nat} {crs₁ crs₂ ncols : Nat} {offs₁ offs₂ : List Nat} {hrow : List Cell}
+    {rows : List (List Cell)} (h₁ : Regime file crs₁ ncols hrow rows) (h₂ : Regime file crs₂ ncols hrow rows)
+    (hb₁ : Budgets ncols offs₁) (hb₂ : Budgets ncols offs₂) (im : List Nat) (him : ∀ c ∈ im, c < ncols) (fuel : Nat)
+    (hfuel₁ : rows.length + 2 + regrowthBound rows ncols offs₁ (crs₁ * Gen.Csv.CHUNK_ROW_FACTOR) ≤ fuel)
+    (hfuel₂ : rows.length + 2 + regrowthBound rows ncols offs₂ (crs₂ * Gen.Csv.CHUNK_ROW_FACTOR) ≤ fuel) :
+    ∃ o₁ o₂, readFile file crs₁ ncols offs₁ im (im.map (fun _ => ({ kind := .indexed } : Imp))) fuel = .ok o₁ ∧
+      readFile file crs₂ ncols offs₂ im (im.map (fun _ => ({ kind := .indexed } : Imp))) fuel = .ok o₂ ∧
+      o₁.rows = o₂.rows ∧ o₁.imps = o₂.imps := by
+  obtain ⟨c1, e1⟩ := window_chunking_unobservable h₁ hb₁ im him fuel hfuel₁
+  obtain ⟨c2, e2⟩ := window_chunking_unobservable h₂ hb₂ im him fuel hfuel₂
+  exact ⟨_, _, e1, e2, rfl, rfl⟩
+
+/-- **read_csv_eq_spec** (full statement). The public entry point `read_csv_with_schema_dict` on a well-formed file whose
+    columns are imported as text (`String()` in the schema, or missing from it — typed conversion is C06), for any
+    include / exclude lists of known names and *every* `chunk_row_size` in the supported regime, with the budgets the
+    function itself computes (`INDEXED_STRING_FIELD_SIZE · chunk_row_size` bytes per column, `2 · chunk_row_size` index rows)
+    and every regrowth they force: the destination frame holds exactly the selected columns (`fieldsToUse`, in file order),
+    each with exactly the records' cell values, and `rows` (the length of `j_valid_from`) is the number of records. The
+    number of kernel calls is at most `records + 2 + csvRegrowthBound`. -/
+theorem read_csv_eq_spec {file : List Nat} {crs ncols : Nat} {hrow : List Cell} {rows : List (List Cell)}
+    (names : List String) (schema : List (String × FieldKind)) (incl excl : Option (List String))
+    (hall : ∀ k ∈ names, kindOf schema k = .indexed) (hnames : names.length = ncols)
+    (hincl : ∀ l, incl = some l → ∀ k ∈ l, k ∈ names) (hexcl : ∀ l, excl = some l → ∀ k ∈ l, k ∈ names)
+    (h : Regime file crs ncols hrow rows)
+    (fuel : Nat) (hfuel : rows.length + 2 + csvRegrowthBound rows ncols crs ≤ fuel) :
+    readCsv file names schema incl excl crs fuel =
+      .ok ⟨rows.length, (fieldsToUse names incl excl).map
+        (fun k => ⟨k, fieldOf (column (values rows) (names.idxOf k))⟩)⟩ :=
+  readCsv_regrowth names schema incl excl hall hnames hincl hexcl h.isFile h.nonempty h.hdr h.tab.2 h.tab.1 h.crsPos h.reg
+    fuel hfuel
+
+/-! ### non-vacuity of the full statements: the example file with one-byte budgets (three regrowths in the first window) -/
+
+example : Regime (render (exHeader :: exRows)) 3 2 exHeader exRows := by
+  refine ⟨Or.inl rfl, by decide, ⟨rfl, ?_⟩, ⟨by decide, ?_⟩, by decide, ?_⟩
+  · intro c hc
+    simp only [exHeader, List.mem_cons, List.not_mem_nil, or_false] at hc
+    rcases hc with h | h <;> subst h <;> simp [Cell.WF] <;> decide
+  · intro r hr
+    simp only [exRows, List.mem_cons, List.not_mem_nil, or_false] at hr
+    rcases hr with h | h | h <;> subst h <;> refine ⟨rfl, ?_⟩ <;> intro c hc <;>
+      simp only [List.mem_cons, List.not_mem_nil, or_false] at hc <;> rcases hc with h | h <;> subst h <;>
+      simp [Cell.WF] <;> decide
+  · intro l hl
+    simp only [exHeader, exRows, List.mem_cons, List.not_mem_nil, or_false] at hl
+    rcases hl with h | h | h | h <;> subst h <;> decide
+
+example : Budgets 2 [0, 1, 2] := by
+  refine ⟨rfl, rfl, ?_⟩
+  intro c hc
+  have : c = 0 ∨ c = 1 := by omega
+  rcases this with rfl | rfl <;> decide
+
+/-- the bound of `window_chunking_unobservable` for that run: at most `3 + 2 + 6` calls (with `larger_factor = 2` column `b`,
+    9 bytes, goes 1 → 2 → 4 → 8 → 16 and column `a`, 2 bytes, 1 → 2 → 4) -/
+example : regrowthBound exRows 2 [0, 1, 2] (3 * Gen.Csv.CHUNK_ROW_FACTOR) ≤ 6 := by decide +kernel
+
+/-- the model on that run (with `larger_factor = 2`: six kernel calls `[0, 0, 0, 1, 1, 1]`, three of them ended by
+    `is_column_vals_full` without a complete record) -/
+example : (match readFile (render (exHeader :: exRows)) 3 2 [0, 1, 2] [0, 1]
+                   [{ kind := .indexed }, { kind := .indexed }] 11 with
+           | .ok o => decide (o.rows = 3 ∧ o.imps = [fieldOf [[120], [121], []],
+                                fieldOf [[112, 44, 113], [114, 34, 115], [116, 10, 117]]] ∧ 3 < o.calls.length)
+           | .error _ => false) = true := by
+  decide +kernel
+
+/-- eleven records of empty cells read with `chunk_row_size = 3` (windows of 12 bytes, 6 index rows): the second window holds
+    exactly 6 records, the index buffer fills at its last byte, is doubled, and the resumed call finds nothing left -/
+example : (match readFile (render (exHeader :: List.replicate 11 [⟨false, []⟩, ⟨false, []⟩])) 3 2 [0, 1, 2] [0]
+                   [{ kind := .indexed }] 30 with
+           | .ok o => decide (o.rows = 11 ∧ o.calls = [4, 6, 0, 1])
+           | .error _ => false) = true := by
+  decide +kernel
+
+/-- a kernel call that ends with `is_column_vals_full`: one record reported (resume at byte 12), the budget of column 1
+    (4 bytes) is used up inside record 2 -/
+example : (match fastCsvReader (render (exHeader :: exRows)) 0 (zeros2 2 5) (List.replicate 7 0) [0, 3, 7] true with
+           | .ok o => decide (o.nextPos = 12 ∧ o.written = 1 ∧ o.indsFull = false ∧ o.valsFull = true ∧ o.vfc = some 1)
+           | .error _ => false) = true := by
+  decide +kernel
+
+/-- a kernel call that ends with `is_column_inds_full`: two index rows, two records of one empty cell reported -/
+example : (match fastCsvReader (render ([⟨false, [97]⟩] :: List.replicate 5 [⟨false, []⟩])) 2 (zeros2 1 3) (List.replicate 1 0)
+                 [0, 1] false with
+           | .ok o => decide (o.nextPos = 4 ∧ o.written = 2 ∧ o.indsFull = true ∧ o.valsFull = false ∧ o.vfc = none)
+           | .error _ => false) = true := by
+  decide +kernel
+
+example : csvRegrowthBound exRows 2 3 = 0 := by decide +kernel
+
+/-- hypotheses of `fsm_any_buffers_eq_spec` for the call above: budgets 3 and 4, fresh buffers with 4 index rows -/
+example : Budgets 2 [0, 3, 7] ∧ Shape 2 4 [0, 3, 7] (zeros2 2 5) (List.replicate ([0, 3, 7].getLastD 0) 0) ∧
+    (∀ c, c < 2 → ∃ r, (zeros2 2 5)[c]? = some r ∧ r[0]? = some 0) := by
+  have hb : Budgets 2 [0, 3, 7] := by
+    refine ⟨rfl, rfl, ?_⟩
+    intro c hc
+    have : c = 0 ∨ c = 1 := by omega
+    rcases this with rfl | rfl <;> decide
+  exact ⟨hb, shape_zeros hb.len hb.zero (fun c hc => Nat.le_of_lt (hb.pos c hc)), fun c hc => zeros_first c hc⟩
+
+/-- the public path with a regrowth: six columns, `chunk_row_size = 3` (window 36 bytes, budget 30 bytes per column), one record
+    whose first cell has 30 bytes and fills the window exactly: the second kernel call ends with `is_column_vals_full`, the
+    third one (budget 60) imports the record; `1 + 2 + csvRegrowthBound = 4` calls suffice -/
+def exHeader6 : List Cell := [⟨false, [97]⟩, ⟨false, [98]⟩, ⟨false, [99]⟩, ⟨false, [100]⟩, ⟨false, [101]⟩, ⟨false, [102]⟩]
+def exRows6 : List (List Cell) :=
+  [[⟨false, List.replicate 30 120⟩, ⟨false, []⟩, ⟨false, []⟩, ⟨false, []⟩, ⟨false, []⟩, ⟨false, []⟩]]
+
+example : Regime (render (exHeader6 :: exRows6)) 3 6 exHeader6 exRows6 := by
+  refine ⟨Or.inl rfl, by decide, ⟨rfl, ?_⟩, ⟨by decide, ?_⟩, by decide, ?_⟩
+  · intro c hc
+    simp only [exHeader6, List.mem_cons, List.not_mem_nil, or_false] at hc
+    rcases hc with h | h | h | h | h | h <;> subst h <;> simp [Cell.WF] <;> decide
+  · intro r hr
+    simp only [exRows6, List.mem_cons, List.not_mem_nil, or_false] at hr
+    subst hr
+    refine ⟨rfl, ?_⟩
+    intro c hc
+    simp only [List.mem_cons, List.not_mem_nil, or_false] at hc
+    rcases hc with h | h | h | h | h | h <;> subst h <;> simp [Cell.WF] <;> decide
+  · intro l hl
+    simp only [exHeader6, exRows6, List.mem_cons, List.not_mem_nil, or_false] at hl
+    rcases hl with h | h <;> subst h <;> decide
+
+example : csvRegrowthBound exRows6 6 3 = 1 := by decide +kernel
+
+example : (match readCsv (render (exHeader6 :: exRows6)) ["a", "b", "c", "d", "e", "f"] [] (some ["a"]) none 3 4 with
+           | .ok o => decide (o = ⟨1, [⟨"a", fieldOf [List.replicate 30 120]⟩]⟩)
+           | .error _ => false) = true := by
+  decide +kernel
+
+example : (match readFile (render (exHeader6 :: exRows6)) 3 6 [0, 30, 60, 90, 120, 150, 180] [0] [{ kind := .indexed }] 4 with
+           | .ok o => decide (o.rows = 1 ∧ o.calls = [0, 0, 1])
+           | .error _ => false) = true := by
+  decide +kernel
 
 end Exetera.Props.C05
